@@ -128,6 +128,14 @@ def specs_for(ctx):
                 expanded = mk_rule(verb, d, exc, exp_f if side == "subs" else other, other if side == "subs" else exp_f)
                 r2 = ep.eval(expanded)
                 ep.law("expand", [r1, r2])
+                if rng.random() < 0.3 and len(comp_f) == 1:
+                    # the two 'anything' aliases and the spelled-out 'except itself' with the compact form as subject: a
+                    # regex that matches a package together with its sub modules means the list of all of them
+                    da = rng.choice(DIRS)
+                    a1 = ep.eval(mk_rule("should_not", da, False, comp_f, [], any_=True))
+                    a2 = ep.eval(mk_rule("should_not", da, False, exp_f, [], any_=True))
+                    ep.law("expand", [a1, a2])
+                    counts["any"] = counts.get("any", 0) + 1
                 if kind == "partial":
                     rx_f = [{"kind": "regex", "name": ["regex"], "matches": [], "pat": comp_f[0]["regex_of_partial"]}]
                     r3 = ep.eval(mk_rule(verb, d, exc, rx_f if side == "subs" else other, other if side == "subs" else rx_f))
